@@ -43,4 +43,11 @@ CHECKS = {
         note="Finite input space enumerated completely. sync.Map iteration order is random and outside the harness' control: multi-entry mappings are repeated 24x (200x thorough) under every insertion order and all repetitions must agree. RBAC entity fields are C20's business.",
         parts=[part("names", "core", "writer", "TestVerifC09Names", shards=(8, 16), budget=(150, 900))],
     ),
+    "C20": dict(
+        level="model_checking", engine="seq",
+        technique="total enumeration of per-kind field-domain products and malformed packs through the real ChannelWriter, deep comparison with an independent reference builder",
+        text="For every supported operation message kind and API event the product of small field domains is pushed through the real ChannelWriter; the one request recorded at the fake DataHandler is deep-compared with an independently built expectation (same identity fields, dropped list members removed, schema/shards/consistency/properties for create collection, replication flag, source timestamp); malformed packs must be rejected with no downstream call.",
+        note="Finite alphabet enumerated completely (about 3k cases); field contents outside the alphabets are not covered. Event timestamps produced by the reader (create time / barrier time) are checked in the C04 pipeline harness.",
+        parts=[part("requests", "core", "writer", "TestVerifC20Requests", shards=(4, 8), budget=(150, 900))],
+    ),
 }
